@@ -106,8 +106,11 @@ def theorem_names(module):
     path = os.path.join(LEAN_DIR, *module.split(".")) + ".lean"
     names = []
     ns = []
-    with open(path, encoding="utf-8") as f:
-        for line in f:
+    src = open(path, encoding="utf-8").read()
+    src = re.sub(r"/-.*?-/", lambda m: "\n" * m.group(0).count("\n"), src, flags=re.S)
+    if True:
+        for line in src.split("\n"):
+            line = line.split("--")[0]
             m = re.match(r"\s*namespace\s+(\S+)", line)
             if m:
                 ns.append(m.group(1))
@@ -124,8 +127,9 @@ def theorem_names(module):
 
 def count_examples(module):
     path = os.path.join(LEAN_DIR, *module.split(".")) + ".lean"
-    with open(path, encoding="utf-8") as f:
-        return len(re.findall(r"^\s*example\b", f.read(), re.M))
+    src = open(path, encoding="utf-8").read()
+    src = re.sub(r"/-.*?-/", "", src, flags=re.S)
+    return len(re.findall(r"^\s*example\b", src, re.M))
 
 
 def forbidden_scan():
